@@ -26,6 +26,7 @@ import (
 	coapNet "github.com/plgd-dev/go-coap/v3/net"
 	"github.com/plgd-dev/go-coap/v3/options"
 	"github.com/plgd-dev/go-coap/v3/options/config"
+	pkgErrors "github.com/plgd-dev/go-coap/v3/pkg/errors"
 	"github.com/plgd-dev/go-coap/v3/tcp"
 	tcpClient "github.com/plgd-dev/go-coap/v3/tcp/client"
 	tcpCoder "github.com/plgd-dev/go-coap/v3/tcp/coder"
@@ -640,10 +641,19 @@ func c10PathOpts(route int) message.Options {
 
 // ---------- discovery ----------
 
-func c10DiscRun(seed uint64) (string, error) {
+// c10DiscRun drives DiscoveryRequest calls and responders against a live server.  With fail set, some of the
+// requests cannot be sent (an IPv6 destination on the IPv4 socket of a listener opened with network "udp", or a
+// datagram above the UDP limit): such a call returns the write error at once, and afterwards its token must be
+// as free as before -- responses carrying it go to whoever holds it now (or to the application), and the same
+// request can be issued again.  After a failed call the generator prefers its token for the following steps.
+func c10DiscRun(seed uint64, fail bool) (string, error) {
 	rng := NewRng(seed)
 	app := newC10App()
-	l, err := coapNet.NewListenUDP("udp4", "127.0.0.1:0")
+	network := "udp4"
+	if fail {
+		network = "udp" // ResolveUDPAddr(c.Network(), "[::1]:5683") succeeds, the write on the AF_INET socket does not
+	}
+	l, err := coapNet.NewListenUDP(network, "127.0.0.1:0")
 	if err != nil {
 		return "", err
 	}
@@ -695,10 +705,76 @@ func c10DiscRun(seed uint64) (string, error) {
 		return n
 	}
 	nsteps := 8 + rng.Intn(10)
+	var hot []byte // token of the latest request whose datagram could not be sent
+	pickTok := func() []byte {
+		tok := tokens[rng.Intn(len(tokens))]
+		if fail && hot != nil && rng.Chance(60) {
+			tok = hot
+		}
+		return tok
+	}
+	mkRecv := func(rcv int) func(cc *udpClient.Conn, resp *pool.Message) {
+		return func(cc *udpClient.Conn, resp *pool.Message) {
+			body, _ := resp.ReadBody()
+			t := -1
+			if len(body) > 0 {
+				t = int(body[0])
+			}
+			mu.Lock()
+			delivs = append(delivs, deliv{rcv, cc.RemoteAddr().(*net.UDPAddr).Port, t})
+			mu.Unlock()
+		}
+	}
+	if fail {
+		nsteps += 6
+	}
 	for i := 0; i < nsteps; i++ {
-		switch k := rng.Intn(10); {
+		k := rng.Intn(10)
+		if fail && (i == 1 || rng.Chance(25)) {
+			k = 10
+		}
+		switch {
+		case k == 10: // a discovery request whose datagram cannot be sent
+			tok := pickTok()
+			rcv := 1 + rng.Intn(3)
+			ctx, cancel := context.WithCancel(context.Background())
+			req := pool.NewMessage(ctx)
+			_ = req.SetupGet("/a", tok)
+			mid++
+			req.SetMessageID(int32(mid))
+			req.SetType(message.NonConfirmable)
+			// three ways not to get the datagram out: an IPv6 destination on the AF_INET socket (unicast branch), a
+			// datagram above the UDP limit to a unicast address (unicast branch) or to a multicast group (WriteMulticast
+			// branch; only where the host has an interface on which such a write is attempted and refused)
+			address := "[::1]:5683"
+			if k := rng.Intn(10); k >= 4 {
+				address = socks[0].LocalAddr().String()
+				if k >= 7 && c10OversizeMulticastFails() {
+					address = "224.0.1.187:5683"
+				}
+				req.SetBody(bytes.NewReader(make([]byte, 65600+rng.Intn(800))))
+			}
+			done := make(chan error, 1)
+			go func() { done <- s.DiscoveryRequest(req, address, mkRecv(rcv)) }()
+			res := 0
+			select {
+			case err := <-done:
+				switch {
+				case err == nil:
+				case errors.Is(err, pkgErrors.ErrKeyAlreadyExists):
+					res = 1
+				default:
+					res = 2
+				}
+			case <-time.After(c10Wait):
+				cancel()
+				return "", errors.New("a discovery request to " + address + " did not fail on this system")
+			}
+			cancel()
+			hot = tok
+			steps = append(steps, fmt.Sprintf("(DS_StartFail %s %d %d, %s, [])", coqBytes(tok), rcv, res, coqAddr(lst)))
 		case k < 3: // start a discovery
-			tok := tokens[rng.Intn(len(tokens))]
+			tok := pickTok()
 			rcv := 1 + rng.Intn(3)
 			ctx, cancel := context.WithCancel(context.Background())
 			req := pool.NewMessage(ctx)
@@ -709,16 +785,7 @@ func c10DiscRun(seed uint64) (string, error) {
 			d := &disc{tok: tok, rcv: rcv, cancel: cancel, done: make(chan error, 1)}
 			target := socks[0]
 			go func() {
-				d.done <- s.DiscoveryRequest(req, target.LocalAddr().String(), func(cc *udpClient.Conn, resp *pool.Message) {
-					body, _ := resp.ReadBody()
-					t := -1
-					if len(body) > 0 {
-						t = int(body[0])
-					}
-					mu.Lock()
-					delivs = append(delivs, deliv{rcv, cc.RemoteAddr().(*net.UDPAddr).Port, t})
-					mu.Unlock()
-				})
+				d.done <- s.DiscoveryRequest(req, target.LocalAddr().String(), mkRecv(rcv))
 			}()
 			// witness: either the request reaches the responder socket (registered) or the call fails at once
 			exists := false
@@ -773,7 +840,7 @@ func c10DiscRun(seed uint64) (string, error) {
 			steps = append(steps, fmt.Sprintf("(DS_End %s, %s, [])", coqBytes(d.tok), coqAddr(lst)))
 		default: // a responder sends a response
 			j := rng.Intn(len(socks))
-			tok := tokens[rng.Intn(len(tokens))]
+			tok := pickTok()
 			if rng.Chance(15) {
 				tok = []byte{0x77, byte(i)}
 			}
@@ -826,6 +893,28 @@ func c10DiscRun(seed uint64) (string, error) {
 		}
 	}
 	return fmt.Sprintf("DiscRun %s (Some (IPhost %d)) [%s]", coqAddr(lst), ipNum(net.IPv4(127, 0, 0, 1)), strings.Join(steps, ";\n    ")), nil
+}
+
+var c10McastProbe struct {
+	once  sync.Once
+	fails bool
+}
+
+// c10OversizeMulticastFails: does WriteMulticast of a datagram above the UDP limit return an error on this host?
+// (It does wherever a multicast-capable interface is up; on a host without one nothing is written and nothing fails.)
+func c10OversizeMulticastFails() bool {
+	c10McastProbe.once.Do(func() {
+		l, err := coapNet.NewListenUDP("udp4", "127.0.0.1:0")
+		if err != nil {
+			return
+		}
+		defer l.Close()
+		ctx, cancel := context.WithTimeout(context.Background(), 2*time.Second)
+		defer cancel()
+		err = l.WriteMulticast(ctx, &net.UDPAddr{IP: net.IPv4(224, 0, 1, 187), Port: 5683}, make([]byte, 66000))
+		c10McastProbe.fails = err != nil
+	})
+	return c10McastProbe.fails
 }
 
 func sortStrings(a []string) {
